@@ -17,7 +17,7 @@ GNext ==
   /\ (pc = 0 => Len(hist) < N)
   /\ Next
   /\ init' = init
-  /\ hist' = IF pc' = 0
+  /\ hist' = IF pc' = 0 /\ pc # 0      \* a command has just completed (an environment step between commands is none)
              THEN Append(hist, [c |-> cmd', res |-> res', sys |-> sys', bak |-> bak', bdir |-> bdir', svc |-> svc',
                                 calls |-> calls', wrote |-> wrote', chk |-> chk'])
              ELSE hist
